@@ -365,6 +365,11 @@ impl<W: Write + io::Seek> ZipWriter<W> {
     {
         self.finish_file()?;
 
+        let name = name.into();
+        if name.len() > spec::ZIP64_ENTRY_THR {
+            return Err(ZipError::InvalidArchive("File name is too long"));
+        }
+
         let raw_values = raw_values.unwrap_or(ZipRawValues {
             crc32: 0,
             compressed_size: 0,
@@ -387,7 +392,7 @@ impl<W: Write + io::Seek> ZipWriter<W> {
                 crc32: raw_values.crc32,
                 compressed_size: raw_values.compressed_size,
                 uncompressed_size: raw_values.uncompressed_size,
-                file_name: name.into(),
+                file_name: name,
                 file_name_raw: Vec::new(), // Never used for saving
                 extra_field: Vec::new(),
                 file_comment: String::new(),
@@ -825,6 +830,9 @@ impl<W: Write + io::Seek> ZipWriter<W> {
     }
 
     fn finalize(&mut self) -> ZipResult<()> {
+        if self.comment.len() > spec::ZIP64_ENTRY_THR {
+            return Err(ZipError::InvalidArchive("Archive comment is too long"));
+        }
         self.finish_file()?;
 
         {
@@ -1154,6 +1162,10 @@ fn update_local_file_header<T: Write + io::Seek>(
 }
 
 fn write_central_directory_header<T: Write>(writer: &mut T, file: &ZipFileData) -> ZipResult<()> {
+    // names of appended archives are re-encoded as UTF-8 and may have outgrown the length field
+    if file.file_name.as_bytes().len() > spec::ZIP64_ENTRY_THR {
+        return Err(ZipError::InvalidArchive("File name is too long"));
+    }
     // buffer zip64 extra field to determine its variable length
     let mut zip64_extra_field = [0; 28];
     let zip64_extra_field_length =
